@@ -3,7 +3,7 @@
 //! literals, tuples, sets, records, maps, subscripted names, parenthesised formulas, prefixed and transposed operands,
 //! and ranges).
 //! Case: `fmt  syntax  <hex of the source>  <tokens>`; the tokens are what the model parses:
-//!   L<text> literal   I<name> name   ( ) [ ] { }   , ; _ (element separator) :   .. ..=
+//!   L<text> literal   I<name> name   ( ) [ ] { }   , ; _ (element separator) :   .. ..=   . (field access)   swz (the comma of a swizzle)
 //!   <operator name of c02::BINOPS>   neg (the character `-` before an operand)   not   tr
 //!   ~   :=   =   A<k> (op-assignment k: 0 += 1 -= 2 *= 3 /= 4 ^=)   K<text> (kind annotation)   NL
 //! Observation: as for formulas, with the s-expression of the whole program for T and U.
@@ -62,11 +62,19 @@ fn sx_sub(s: &Subscript) -> String {
   }
 }
 
-fn sx_subs(subs: &Vec<Subscript>) -> String {
-  // one bracket subscript: its entries; anything else is outside the modelled language
-  if subs.len() == 1 { if let Subscript::Bracket(v) = &subs[0] { return v.iter().map(sx_sub).collect::<Vec<_>>().join(" "); } }
-  format!("subs?{}", subs.len())
+fn sx_sel(s: &Subscript) -> String {
+  match s {
+    Subscript::Bracket(v) => format!("(br {})", v.iter().map(sx_sub).collect::<Vec<_>>().join(" ")),
+    Subscript::Brace(v) => format!("(bc {})", v.iter().map(sx_sub).collect::<Vec<_>>().join(" ")),
+    Subscript::Dot(id) => format!("(dot {})", id.to_string()),
+    Subscript::DotInt(n) => format!("(doti {})", toks(n.tokens())),
+    Subscript::Swizzle(ids) => format!("(swz {})", ids.iter().map(|i| i.to_string()).collect::<Vec<_>>().join(" ")),
+    other => format!("sel?{:?}", std::mem::discriminant(other)),
+  }
 }
+
+/// the chain of subscripts after a name, in source order
+fn sx_subs(subs: &Vec<Subscript>) -> String { subs.iter().map(sx_sel).collect::<Vec<_>>().join(" ") }
 
 fn sx_expr(e: &Expression) -> String {
   match e {
@@ -169,7 +177,7 @@ impl<'a> G<'a> {
         self.put("{", "{"); let n = self.rng.below(4); for i in 0..n { if i > 0 { self.put(",", ", "); } self.expr(depth - 1); }
         self.put("}", "}"); self.sink.hit("syntax:set"); }
       9 | 10 => { // subscripted name
-        let n = *self.rng.pick(NAMES); self.put(&format!("I{}", n), n); self.subs(depth - 1); self.sink.hit("syntax:slice"); }
+        let n = *self.rng.pick(NAMES); self.put(&format!("I{}", n), n); self.sels(depth - 1); self.sink.hit("syntax:slice"); }
       11 => { self.put("(", "("); self.formula(depth - 1); self.put(")", ")"); self.sink.hit("syntax:paren"); }
       12 => { // record: bindings, some with a kind annotation
         self.put("{", "{"); let n = 1 + self.rng.below(3);
@@ -185,8 +193,7 @@ impl<'a> G<'a> {
         if n == 0 { self.put(":", ":"); self.sink.hit("syntax:map-empty"); }
         for i in 0..n {
           if i > 0 { self.put(",", ", "); }
-          match self.rng.below(5) { 0 | 1 | 2 => { let l = *self.rng.pick(LITS); self.put(&format!("L{}", l), l); }, 3 => { let a = *self.rng.pick(NAMES); self.put(&format!("I{}", a), a); }, _ => { // a key that starts with `!` is written `¬…` by the formatter and read back as a binding name (defect of /repo, reported): not generated
-              loop { let (tl, xl) = (self.toks.len(), self.text.len()); self.expr(depth - 1); if self.toks[tl] != "not" { break; } self.toks.truncate(tl); self.text.truncate(xl); } } }
+          match self.rng.below(5) { 0 | 1 | 2 => { let l = *self.rng.pick(LITS); self.put(&format!("L{}", l), l); }, 3 => { let a = *self.rng.pick(NAMES); self.put(&format!("I{}", a), a); }, _ => { self.expr(depth - 1); } }
           self.put(":", ": "); self.expr(depth - 1);
         }
         self.put("}", "}"); self.sink.hit("syntax:map"); }
@@ -194,11 +201,28 @@ impl<'a> G<'a> {
     if self.rng.chance(1, 10) { self.put("tr", "'"); self.sink.hit("syntax:transpose"); }
   }
 
-  fn subs(&mut self, depth: u32) {
-    self.put("[", "[");
+  fn subs(&mut self, depth: u32, open: &str, close: &str) {
+    self.put(open, open);
     let n = 1 + self.rng.below(2);
     for i in 0..n { if i > 0 { self.put(",", ", "); } if self.rng.chance(1, 3) { self.put(":", ":"); } else { self.expr(depth); } }
-    self.put("]", "]");
+    self.put(close, close);
+  }
+
+  /// one to three subscripts after a name: brackets, braces, field access by name or number, swizzles
+  fn sels(&mut self, depth: u32) {
+    let n = 1 + self.rng.below(6) / 3 + self.rng.below(6) / 5;
+    if n > 1 { self.sink.hit("syntax:chained-subscripts"); }
+    for _ in 0..n {
+      match self.rng.below(8) {
+        0 | 1 | 2 => { self.subs(depth, "[", "]"); self.sink.hit("syntax:bracket-subscript"); }
+        3 => { self.subs(depth, "{", "}"); self.sink.hit("syntax:brace-subscript"); }
+        4 | 5 => { let f = *self.rng.pick(NAMES); self.put(".", "."); self.put(&format!("I{}", f), f); self.sink.hit("syntax:dot"); }
+        6 => { let l = *self.rng.pick(LITS); self.put(".", "."); self.put(&format!("L{}", l), l); self.sink.hit("syntax:dot-int"); }
+        _ => { let f = *self.rng.pick(NAMES); self.put(".", "."); self.put(&format!("I{}", f), f);
+               let k = 1 + self.rng.below(2); for _ in 0..k { let f = *self.rng.pick(NAMES); self.put("swz", ","); self.put(&format!("I{}", f), f); }
+               self.sink.hit("syntax:swizzle"); }
+      }
+    }
   }
 
   fn formula(&mut self, depth: u32) {
@@ -231,12 +255,12 @@ impl<'a> G<'a> {
       }
       2 | 3 => {
         let n = *self.rng.pick(NAMES); self.put(&format!("I{}", n), n);
-        if self.rng.chance(1, 2) { self.subs(1); }
+        if self.rng.chance(1, 2) { self.sels(1); }
         self.put("=", " = "); self.sink.hit("syntax:assign");
       }
       _ => {
         let n = *self.rng.pick(NAMES); self.put(&format!("I{}", n), n);
-        if self.rng.chance(1, 2) { self.subs(1); }
+        if self.rng.chance(1, 2) { self.sels(1); }
         let k = self.rng.below(5) as usize; self.put(&format!("A{}", k), &format!(" {} ", OPA[k])); self.sink.hit("syntax:op-assign");
       }
     }
